@@ -331,12 +331,18 @@ pub fn transport() -> Arc<quinn::TransportConfig> {
 /// A dialer's config: presents `identity` (or no certificate), accepts and records whatever the
 /// server shows.
 pub fn client_config(identity: Option<&Presented>, seen: Recorded) -> quinn::ClientConfig {
-    let crypto = rustls::ClientConfig::builder_with_provider(provider())
+    client_config_opts(identity, seen, true)
+}
+
+/// `send_sni = false`: the hello carries no server name at all.
+pub fn client_config_opts(identity: Option<&Presented>, seen: Recorded, send_sni: bool) -> quinn::ClientConfig {
+    let mut crypto = rustls::ClientConfig::builder_with_provider(provider())
         .with_protocol_versions(&[&rustls::version::TLS13])
         .unwrap()
         .dangerous()
         .with_custom_certificate_verifier(Arc::new(AcceptAny { seen, require_client_cert: false }))
         .with_client_cert_resolver(Arc::new(FixedClientCert(identity.map(|i| i.certified_key()))));
+    crypto.enable_sni = send_sni;
     let mut c = quinn::ClientConfig::new(Arc::new(quinn::crypto::rustls::QuicClientConfig::try_from(crypto).expect("quic client config")));
     c.transport_config(transport());
     c
